@@ -100,6 +100,27 @@ def brace_tokens(source, node) -> TokenRange:
     return first_token, end_token
 
 
+def with_parentheses(source, token_range: TokenRange, braces: TokenRange) -> TokenRange:
+    """Extends the token range of an element to the parentheses around it.
+
+    `[(5), 1]`: the tokens of the first element are only `5`.
+    """
+    atok = source.asttokens()
+    first, last = token_range
+    while True:
+        prev_token = atok.prev_token(first)
+        next_token = atok.next_token(last)
+        if (
+            prev_token.string == "("
+            and next_token.string == ")"
+            and prev_token.index > braces[0].index
+            and next_token.index < braces[1].index
+        ):
+            first, last = prev_token, next_token
+        else:
+            return first, last
+
+
 def generic_sequence_update(
     source: SourceFile,
     parent: Union[ast.List, ast.Tuple, ast.Dict, ast.Call],
@@ -197,14 +218,16 @@ def apply_all(all_changes: List[Change], recorder: ChangeRecorder):
                 if isinstance(change, ListInsert)
             }
 
+            braces = brace_tokens(source, parent)
+
             def list_token_range(entry):
                 r = list(source.asttokens().get_tokens(entry))
-                return r[0], r[-1]
+                return with_parentheses(source, (r[0], r[-1]), braces)
 
             generic_sequence_update(
                 source,
                 parent,
-                brace_tokens(source, parent),
+                braces,
                 [None if e in to_delete else list_token_range(e) for e in parent.elts],
                 to_insert,
                 recorder,
@@ -216,16 +239,19 @@ def apply_all(all_changes: List[Change], recorder: ChangeRecorder):
             }
             atok = source.asttokens()
 
-            def arg_token_range(node):
-                if isinstance(node.parent, ast.keyword):
-                    node = node.parent
-                r = list(atok.get_tokens(node))
-                return r[0], r[-1]
-
             braces_left = atok.next_token(list(atok.get_tokens(parent.func))[-1])
             assert braces_left.string == "("
             braces_right = list(atok.get_tokens(parent))[-1]
             assert braces_right.string == ")"
+
+            def arg_token_range(node):
+                r = list(atok.get_tokens(node))
+                first, last = with_parentheses(
+                    source, (r[0], r[-1]), (braces_left, braces_right)
+                )
+                if isinstance(node.parent, ast.keyword):
+                    first = list(atok.get_tokens(node.parent))[0]
+                return first, last
 
             to_insert = DefaultDict(list)
 
@@ -266,16 +292,24 @@ def apply_all(all_changes: List[Change], recorder: ChangeRecorder):
                 if isinstance(change, DictInsert)
             }
 
+            braces = brace_tokens(source, parent)
+
             def dict_token_range(key, value):
+                key_tokens = list(source.asttokens().get_tokens(key))
+                value_tokens = list(source.asttokens().get_tokens(value))
                 return (
-                    list(source.asttokens().get_tokens(key))[0],
-                    list(source.asttokens().get_tokens(value))[-1],
+                    with_parentheses(
+                        source, (key_tokens[0], key_tokens[-1]), braces
+                    )[0],
+                    with_parentheses(
+                        source, (value_tokens[0], value_tokens[-1]), braces
+                    )[1],
                 )
 
             generic_sequence_update(
                 source,
                 parent,
-                brace_tokens(source, parent),
+                braces,
                 [
                     None if value in to_delete else dict_token_range(key, value)
                     for key, value in zip(parent.keys, parent.values)
